@@ -136,6 +136,22 @@ THEOREM Unchanged ==
   => ~last'.regenerated /\ last'.ok /\ pout' = pout
   BY DEF BuildParser, ParserBuild
 
+\* the combined build (CTLexerBuilder with an embedded parser build), for any lexer versions: a
+\* successful one writes the lexer module of the current lexer file, settings and token set; a
+\* failed one leaves no lexer module; the parser part behaves as in a parser-only build
+THEOREM BothLexer ==
+  ASSUME NEW LInfo
+  PROVE  BuildBoth(GInfo, LInfo) =>
+           /\ (last'.ok => lout' = [present |-> TRUE, src |-> lv', opts |-> LOpts(opts'), tok |-> GInfo[gv'].tok])
+           /\ (~last'.ok => lout' = Absent)
+  BY DEF BuildBoth
+
+THEOREM BothParser ==
+  ASSUME NEW LInfo
+  PROVE  BuildBoth(GInfo, LInfo) /\ LInfo[lv].valid =>
+           pout' = ParserBuild(GInfo, gv, gm, opts, pout, clock).out /\ gv' = gv /\ gm' = gm /\ opts' = opts /\ clock' = clock + 1
+  BY DEF BuildBoth
+
 THEOREM Safety == PInit /\ [][PNext]_cvars => []Inv
   BY InitInv, StepInv, PTL
 =============================================================================
